@@ -144,3 +144,24 @@ Proof.
     assert (B' : bracketed [of_string "a"] = of_string "[a]") by (vm_compute; reflexivity).
     rewrite <- B', R1. exact (R3 _ eq_refl).
 Qed.
+
+(* ================================================================================================== *)
+(* non-vacuity examples added after the reviewer's audit (Properties/C17_nv.v, 2026-10-01)         *)
+(* ================================================================================================== *)
+
+(* ==== non-vacuity instance obtained BY APPLYING the theorem above (added after review) ================== *)
+
+(* C17_wiring: negated flags, a list scope and an output format; all flags absent (the defaults); a scope that does not
+   validate to a string list (the error is passed on to parse()) -- the theorem gives the meaning, the computation its value *)
+Example C17_wiring_nonvacuous :
+  let f1 := mkFlags true false true true (Some OFoam) (Some (of_string "[a, 2]")) true false true in
+  let f2 := mkFlags false false false false None None false false false in
+  let f3 := mkFlags false true false false None (Some (of_string "['a', b]")) false true false in
+  (cli_kwargs f1 = spec_kwargs f1 /\ cli_kwargs f2 = spec_kwargs f2 /\ cli_kwargs f3 = spec_kwargs f3) /\
+  spec_kwargs f1 = mkKw false true false false (Some (Ok [SStr (of_string "a"); SInt 2])) OFoam /\
+  spec_kwargs f2 = mkKw true false false true None OCpp /\
+  spec_kwargs f3 = mkKw true false true true (Some (validate_scope (of_string "['a', b]"))) OCpp.
+Proof.
+  intros f1 f2 f3. split; [exact (conj (C17_wiring f1) (conj (C17_wiring f2) (C17_wiring f3)))|].
+  repeat split; vm_compute; reflexivity.
+Qed.
